@@ -319,4 +319,34 @@ example : ∀ i (g : Nat), (nthDraw (fun g : Nat => (List.replicate 7 (g : Rat),
 example : Sift.ensembleCols 2 [[[1, 2], [3, 4]], [[3, 4]]] = ensembleMean 2 [[[1, 2], [3, 4]], [[3, 4]]] ∧
     ensembleMean 2 [[[1, 2], [3, 4]], [[3, 4]]] = [[2, 3], [3/2, 2]] := by decide +kernel
 
+/-! ### Cross-model consistency: `complete_ensemble_sift` in the Sift model (C03) and in this model
+
+  Linked: `Sift.ceemd` (C03: stop logic — fewer than two peaks / cap / mean-abs threshold — around an
+  abstract ensemble step) and `Ensemble.ceemd` (this property: noise matrix, members, pools, noise
+  residuals, a given number of stages, no stop logic).  `ComposeEnsemble.stepNx F Fn mode scale M` is the
+  ensemble step of the former built from the ingredients of the latter. -/
+
+/-- The two models of `complete_ensemble_sift` return the same columns: whatever the Sift model returns
+    (any exit), this model run for `(number of columns) − 1` stages returns exactly those columns, for
+    every valid family of pool schedules. -/
+theorem ceemd_agrees_with_sift_model (σ : Nat → Schedule) (p : Nat → Nat) (F Fn : Sig → Sig) (mode : Mode)
+    (scale : Rat) (M : List Sig) (thr : Rat) (cap : Option Nat) (x : Sig) (fuel : Nat)
+    (hσ : ∀ c, (σ c).Valid M.length (p c)) :
+    (ceemd σ F Fn mode scale M x
+        ((Sift.ceemd (ComposeEnsemble.stepNx F Fn mode scale M) thr cap x fuel).1.length - 1)).1
+      = (Sift.ceemd (ComposeEnsemble.stepNx F Fn mode scale M) thr cap x fuel).1 :=
+  ComposeEnsemble.ceemd_agree σ p F Fn mode scale M thr cap x fuel hσ
+
+/-- … hence the composed `complete_ensemble_sift` (stop logic of C03 + members of C08) respects a cap
+    `k ≥ 1` (C03.ceemd_cols_le_cap) and every one of its columns is the member mean that
+    `ceemd_stage_mean` describes. -/
+theorem ceemd_composed_cols_le_cap (σ : Nat → Schedule) (p : Nat → Nat) (F Fn : Sig → Sig) (mode : Mode)
+    (scale : Rat) (M : List Sig) (thr : Rat) (k : Nat) (hk : 0 < k) (x : Sig) (fuel : Nat)
+    (hσ : ∀ c, (σ c).Valid M.length (p c)) :
+    ∃ stages, stages + 1 ≤ k ∧
+      (ceemd σ F Fn mode scale M x stages).1
+        = (Sift.ceemd (ComposeEnsemble.stepNx F Fn mode scale M) thr (some k) x fuel).1 := by
+  have hcap := C03.ceemd_cols_le_cap (ComposeEnsemble.stepNx F Fn mode scale M) thr x fuel k hk
+  exact ⟨_, by omega, ceemd_agrees_with_sift_model σ p F Fn mode scale M thr (some k) x fuel hσ⟩
+
 end C08
